@@ -1235,6 +1235,20 @@ theorem transferOp_SInv {c : Cfg} (hg : good c = true) {s s' : State} {f t v x :
         · rw [hr] at ht; cases ht
           exact ⟨SInv_setVS hi hv2, rfl, rfl⟩
 
+/-- a change of the validator's status touches none of the records the invariant speaks about -/
+theorem status_VInv {n : Nat} {v : VS} (b j : Bool) (u : Nat) (hi : VInv n v) :
+    VInv n { v with bonded := b, ubHeight := u, jailed := j } :=
+  ⟨hi.sum, RI.congr (v := v) rfl rfl rfl rfl rfl hi.ri, hi.dom⟩
+
+theorem endBlock_VInv {n : Nat} {v : VS} (h : Nat) (hi : VInv n v) : VInv n (v.endBlock h) := by
+  unfold VS.endBlock
+  dsimp only
+  split
+  · exact status_VInv false v.jailed h hi
+  · split
+    · exact status_VInv true v.jailed v.ubHeight hi
+    · exact hi
+
 /-- one successful operation keeps the invariant of every validator (and the universe of accounts / validators) -/
 theorem exec_SInv {c : Cfg} (hg : good c = true) {s s' : State} {o : Op}
     (hi : SInv s) (h : s.exec c o = .ok s') : SInv s' ∧ s'.nAcc = s.nAcc ∧ s'.nVal = s.nVal := by
@@ -1351,7 +1365,27 @@ theorem exec_SInv {c : Cfg} (hg : good c = true) {s s' : State} {o : Op}
   | block =>
     simp only [State.exec] at h
     cases h
-    exact ⟨hi, rfl, rfl⟩
+    exact ⟨fun w hw => endBlock_VInv _ (hi w hw), rfl, rfl⟩
+  | jail v =>
+    simp only [State.exec] at h
+    split at h
+    · cases h
+    · rename_i hok
+      have hv : v < s.nVal := by
+        apply lt_of_okVal
+        revert hok; cases s.okVal v <;> cases (s.vs v).jailed <;> decide
+      cases h
+      exact ⟨SInv_setVS hi (status_VInv _ _ _ (hi v hv)), rfl, rfl⟩
+  | unjail v =>
+    simp only [State.exec] at h
+    split at h
+    · cases h
+    · rename_i hok
+      have hv : v < s.nVal := by
+        apply lt_of_okVal
+        revert hok; cases s.okVal v <;> cases (s.vs v).jailed <;> decide
+      cases h
+      exact ⟨SInv_setVS hi (status_VInv _ _ _ (hi v hv)), rfl, rfl⟩
 
 theorem step_SInv {c : Cfg} (hg : good c = true) {s : State} (o : Op) (hi : SInv s) :
     SInv (s.step c o) ∧ (s.step c o).nAcc = s.nAcc ∧ (s.step c o).nVal = s.nVal := by
